@@ -7,6 +7,9 @@ def main(root):
         print(__doc__ or "usage: verif check <ID> [--tier quick|thorough]"); sys.exit(2)
     if a[0] == "setup":
         sys.exit(core.setup(root))
+    if a[0] == "manifest":
+        from . import manifest
+        sys.exit(manifest.write(root))
     if a[0] == "list":
         for f in sorted(os.listdir(os.path.join(root, "lib/vf/props"))):
             if f.startswith("c") and f.endswith(".py"):
